@@ -144,8 +144,8 @@ func init() {
 	out := []string{"unequal stream lengths on the ports of one process (surplus dropped by design)", "cyclic graphs", "graphs with more than 7 processes", "streaming outputs (C17)", "whole-graph deadlock freedom beyond the explored schedules"}
 	as := append(append([]string{}, envAssumptions...), commonAssumptions[0], commonAssumptions[3])
 	st := []string{"os.*, exec.Command, ioutil.*, filepath.Walk, json, time.Now, log, randSeqLC; Go channels, select, mutex: interpreter objects with Go semantics"}
-	regCheck(&Check{ID: "C16", Quick: gq([]string{"C16.unconnected-port-refused", "C16.refused-before-any-command", "C16.only-the-closure-runs", "C04.every-input-set-once"}, []string{"ran", "refused"}),
-		Thorough: gt([]string{"C16.unconnected-port-refused", "C16.refused-before-any-command", "C16.only-the-closure-runs", "C04.every-input-set-once"}, []string{"ran", "refused"}),
+	regCheck(&Check{ID: "C16", Quick: append(gq([]string{"C16.unconnected-port-refused", "C16.refused-before-any-command", "C16.only-the-closure-runs", "C04.every-input-set-once"}, []string{"ran", "refused"}), H{Pkg: "components", Fn: "VxH16glob", MustReach: []string{"ran"}, MustAssert: []string{"C16.glob.upstream-of-dependency-port-included", "C16.unconnected-port-refused"}}),
+		Thorough: append(gt([]string{"C16.unconnected-port-refused", "C16.refused-before-any-command", "C16.only-the-closure-runs", "C04.every-input-set-once"}, []string{"ran", "refused"}), H{Pkg: "components", Fn: "VxH16glob", MustReach: []string{"ran"}, MustAssert: []string{"C16.glob.upstream-of-dependency-port-included", "C16.unconnected-port-refused"}}),
 		Bounds:   graphBounds, Outside: out, Assumptions: as, Stubs: st})
 	q04 := gq([]string{"C04.every-input-set-once"}, []string{"ran"})
 	q04 = append(q04, H{Pkg: "scipipe", Fn: "VxH01wf", Params: p("shape", 0, "two", 1, "N", 60), MustReach: []string{"ran-returned"}, MustAssert: []string{"C04.each-task-once"}})
@@ -165,11 +165,15 @@ func init() {
 		Quick: []H{
 			{Pkg: "components", Fn: "VxH08", Params: p("n", 3, "bufsize", 1, "preempt", 1), MustReach: []string{"ran"}, MustAssert: ma},
 			{Pkg: "components", Fn: "VxH08fanin", Params: p("preempt", 2), MustReach: []string{"ran"}, MustAssert: []string{"C08.fanin.per-upstream-order-kept", "C08.fanin.all-delivered-once"}},
+			{Pkg: "components", Fn: "VxH08stream", Params: p("n", 3, "preempt", 1), MustReach: []string{"ran"}, MustAssert: []string{"C08.arrival-order-kept", "C08.every-output-forwarded-once"}},
+			{Pkg: "components", Fn: "VxH08join", Params: p("preempt", 1), MustReach: []string{"ran"}, MustAssert: []string{"C08.arrival-order-kept"}},
 		},
 		Thorough: []H{
 			{Pkg: "components", Fn: "VxH08", Params: p("n", 3, "bufsize", 1, "preempt", 2), MustReach: []string{"ran"}, MustAssert: ma},
 			{Pkg: "components", Fn: "VxH08", Params: p("n", 4, "bufsize", 2, "preempt", 1), MustReach: []string{"ran"}, MustAssert: ma},
 			{Pkg: "components", Fn: "VxH08fanin", Params: p("preempt", 3), MustReach: []string{"ran"}, MustAssert: []string{"C08.fanin.per-upstream-order-kept", "C08.fanin.all-delivered-once"}},
+			{Pkg: "components", Fn: "VxH08stream", Params: p("n", 3, "preempt", 2), MustReach: []string{"ran"}, MustAssert: []string{"C08.arrival-order-kept", "C08.every-output-forwarded-once"}},
+			{Pkg: "components", Fn: "VxH08join", Params: p("preempt", 3), MustReach: []string{"ran"}, MustAssert: []string{"C08.arrival-order-kept"}},
 		},
 		Bounds: map[string]string{
 			"workflow":  "FileSource(3 files; thorough also 4) -> command process -> recorder component, channel buffers of 1 (2); fan-in: two sources (3 + 2 files) into one in-port",
@@ -191,6 +195,7 @@ func init() {
 		{Pkg: "scipipe", Fn: "VxH17", Params: p("n", 2, "shape", 3, "preempt", 0), MustReach: []string{"ran"}, MustAssert: ma},
 		{Pkg: "scipipe", Fn: "VxH17", Params: p("n", 2, "shape", 4, "preempt", 0), MustReach: []string{"ran"}, MustAssert: append([]string{"C04.ordinary-output-of-streaming-task-delivered"}, ma...)},
 		{Pkg: "scipipe", Fn: "VxH17", Params: p("n", 1, "shape", 5, "preempt", 0), MustReach: []string{"ran"}, MustAssert: append([]string{"C04.ordinary-output-of-streaming-task-delivered"}, ma...)},
+		{Pkg: "scipipe", Fn: "VxH17", Params: p("n", 2, "shape", 6, "preempt", 1), MustReach: []string{"ran"}, MustAssert: append([]string{"C17.preexisting-file-at-stream-path-untouched"}, ma...)},
 		{Pkg: "scipipe", Fn: "VxH17rerun", MustReach: []string{"reran"}, MustAssert: []string{"C17.first-run-completes", "C17.rerun-leaves-consumer-output-untouched"}},
 		{Pkg: "scipipe", Fn: "VxH17leftover", Params: p("N", 40), MustReach: []string{"reran"}, MustAssert: []string{"C03.leftover-fifo-refused"}},
 	}
@@ -230,6 +235,7 @@ func init() {
 		{Pkg: "components", Fn: "VxH19split", Params: p("n", 4), MustReach: []string{"ran"}, MustAssert: []string{"C19.split.parts-concatenate-to-input", "C19.split.no-part-longer-than-limit"}},
 		{Pkg: "components", Fn: "VxH19concat", Params: p("n", 0), MustReach: []string{"ran"}, MustAssert: []string{"C19.concat.every-input-once-newline-terminated"}},
 		{Pkg: "components", Fn: "VxH19concat", Params: p("n", 3), MustReach: []string{"ran"}, MustAssert: []string{"C19.concat.every-input-once-newline-terminated", "C19.concat.arrival-order"}},
+		{Pkg: "components", Fn: "VxH19group", Params: p("n", 3), MustReach: []string{"ran"}, MustAssert: []string{"C19.concat.untagged-inputs-in-main-output", "C19.concat.tagged-inputs-in-tag-output"}},
 		{Pkg: "components", Fn: "VxH19src", MustReach: []string{"ran"}, MustAssert: []string{"C19.src.globber-matching-files-in-order", "C19.src.reader-lines-in-order"}},
 	}
 	th := append([]H{}, q...)
